@@ -211,7 +211,7 @@ class C12(Prop):
         "reference: -1/2 ||x S - w||^2 (and -1/2 (x-mu)' P (x-mu) for parametrised constructors), evaluated with numpy",
         "well-conditioned square-root factors (diagonally dominant leading block)",
     )
-    cases = {"quick": 2000, "thorough": 80000}
+    cases = {"quick": 4000, "thorough": 80000}
 
     def strategy(self, tier):
         return cases(tier)
